@@ -317,12 +317,15 @@ MANIFEST_ENTRY = {
             "(<= 12 ops quick, <= 40 thorough; 17 operation kinds incl. condition(args)/condition(kw=...), 5 transform classes + composites, 7 parameter kinds, 7 grids) run on "
             "the real classes and on the model by vm_compute, outputs canonicalised to the parameter/grid version they were computed from "
             "(constant vector fields), error kinds and buffer shapes compared exactly inside Coq, failing histories shrunk.",
-    "note": "Found by the search, not modelled (constant fields are insensitive to it): StationaryVelocityFieldTransform.grid_ writes "
-            "exp.align_corners on the ExpFlow module shared with shallow copies. Partial: composite calls are proved for members that are plain parametric transforms (C09_composite_call_is_fresh_after_any_history, "
-            "using the reachability invariant C09_reachable_states_wellformed proved by induction over histories); composites with linked "
-            "members are covered by correspondence and search only; the regrid theorem covers dense models (its slots_wf hypothesis is "
-            "discharged over histories by C09_regrid_preserves_world_after_any_history); B-spline "
-            "subdivision and smooth-field regridding are checked numerically by the search (world displacement preserved within 5%); "
-            "GenericSpatialTransform only through its SequentialTransform behaviour. Trusted: Coq kernel, vm_compute, the modelled Python/"
-            "torch object semantics (validated by the correspondence), harness canonicalisation on constant fields.",
+    "note": "Round 2: added C09_reachable_states_wellformed (induction over histories), C09_composite_call_is_fresh_after_any_history, "
+            "C09_composite_direct_access(_after_clear) (disp/tensor/forward of a composite without __call__ right after clear_buffers on it; "
+            "general form for any state whose members are `ready`), C09_linear_tensor_direct, C09_spline_regrid_preserves_world_after_any_history, "
+            "C09_regrid_preserves_world(_after_any_history) at full strength. Still partial, by nature of the code: linear transform with callable "
+            "parameters after condition_/reset_parameters (refuted, known finding); composites with LINKED members (a linked member reads the "
+            "linked transform's buffered p, so the result depends on member order -- correspondence/search only); composite direct access after "
+            "condition_/grid_ on the composite is covered by the general `ready` theorem plus the search, not by a dedicated corollary; numeric "
+            "exactness of regridding (interpolation, subdivision masks) is C05/C14's; GenericSpatialTransform only through its SequentialTransform "
+            "behaviour; StationaryVelocityFieldTransform.grid_ writing the shared ExpFlow.align_corners is found by the search only (constant "
+            "fields cannot see it). Trusted: Coq kernel, vm_compute, the modelled Python/torch object semantics (validated by the "
+            "correspondence), harness canonicalisation on constant fields.",
 }
